@@ -75,6 +75,7 @@ def _analyse(job, root):
                     f.write(text)
             res["runtime"] = P.run_node_project(rundir, run["main"])
     pre = install_preprocess_recorder()
+    coll = install_taint_collision_recorder()
     s = job["settings"]
     st = lianrun.write_settings(os.path.join(root, "st"), entry=s["entry"], source=s["source"], sink=s["sink"], propagation=s["propagation"])
     ws = os.path.join(root, "ws")
@@ -93,6 +94,8 @@ def _analyse(job, root):
     res.update(extract(lianrun.ws_dir(ws), "in"))
     res["cpu_s"] = round(time.process_time(), 2)
     res["preprocess_events"] = pre["events"]
+    res["taint_state_calls"] = coll["calls"]
+    res["taint_state_id_in_symbol_table"] = coll["collisions"]
     res["backmap"] = {}
     for rel, text in job["files"].items():
         outs = pre["by_text"].get(text)
@@ -123,6 +126,39 @@ def install_preprocess_recorder():
             pass
         return r
     em.EventManager.notify = wrapped
+    return rec
+
+
+def install_taint_collision_recorder():
+    """Recording wrapper on the taint path finder's _propagate_from_state: counts the events in which the tag of a
+    predecessor STATE node (STATE_INCLUSION edge) is written into the SYMBOL tag table under the state's id — the
+    mechanism by which a symbol whose declaration statement id happens to equal that state id becomes tainted. Only
+    used to CLASSIFY a taint-flow difference that has already been observed."""
+    rec = {"calls": 0, "collisions": 0}
+    try:
+        import lian.taint.taint_analysis as ta
+        from lian.config.constants import SFG_NODE_KIND
+        cls = next(v for v in vars(ta).values() if isinstance(v, type) and hasattr(v, "_propagate_from_state") and hasattr(v, "propagate_taint"))
+        orig = cls._propagate_from_state
+    except Exception:
+        return rec
+
+    def wrapped(self, u, u_tag, worklist, in_worklist):
+        try:
+            rec["calls"] += 1
+            before = set(self.taint_manager.symbols_to_bv)
+            preds = [v.node_id for v in self.sfg.predecessors(u) if v.node_type == SFG_NODE_KIND.STATE]
+        except Exception:
+            before, preds = None, []
+        r = orig(self, u, u_tag, worklist, in_worklist)
+        try:
+            if before is not None:
+                now = self.taint_manager.symbols_to_bv
+                rec["collisions"] += sum(1 for x in preds if x in now and x not in before)
+        except Exception:
+            pass
+        return r
+    cls._propagate_from_state = wrapped
     return rec
 
 
@@ -650,7 +686,7 @@ def plan(bases, tier, rng):
         if prog["origin"] in ("gen_flow", "gen_py"):
             n = 4 if not thorough else 5
         elif prog["origin"] == "template":
-            n = 3 if not thorough else 14
+            n = 4 if not thorough else 24
         elif prog["origin"] == "corpus":
             n = 2 if not thorough else 3
         else:
@@ -725,6 +761,11 @@ def judge(chk, prog, steps, edited_files, res_a, res_b, reducible, case_extra=No
             lab = next((k for k in LINE_MOVING if any(s.kind == k for s in steps)), label_of(steps)) + suffix
         else:
             lab = label_of(steps, suffix)
+        if table == "taint-flow-lines" and what != "shifted-by-preprocessing" and \
+                ((res_a.get("taint_state_id_in_symbol_table") or 0) + (res_b.get("taint_state_id_in_symbol_table") or 0)) > 0:
+            # known mechanism: during propagation a STATE's id was used as a key of the SYMBOL tag table in one of the
+            # two runs, so which symbols are tainted depends on numeric coincidences between state ids and statement ids
+            what = what + ":state-id-written-into-symbol-tags"
         sig = f"{lab}:{table}:{what}"
         if sig in seen:
             continue
